@@ -2,7 +2,7 @@
 # runs every seeded mutant against the checks of the property it breaks (plus related ones); prints a table
 cd /verif
 rm -rf /tmp/ev.bak.$$; cp -r evidence /tmp/ev.bak.$$   # checks on a changed tree must not leave their evidence behind
-declare -A REL=( [C01]="C01" [C02]="C02 C07" [C03]="C03 C01" [C04]="C04 C07" [C05]="C05" [C06]="C06 C08" [C07]="C07 C02 C17" [C08]="C08" [C09]="C09" [C10]="C10 C16" [C11]="C11" [C13]="C13" [C15]="C15" [C16]="C16 C10" [C17]="C17 C01 C07" )
+declare -A REL=( [C01]="C01" [C02]="C02 C07 C09" [C03]="C03 C01" [C04]="C04 C07" [C05]="C05" [C06]="C06 C08" [C07]="C07 C02 C17" [C08]="C08" [C09]="C09" [C10]="C10 C16" [C11]="C11" [C13]="C13" [C15]="C15" [C16]="C16 C10" [C17]="C17 C01 C07" )
 for d in seeded/*/; do n=$(basename $d); p=${n%%-*}; 
   git -C /repo apply /verif/$d/patch.diff 2>/dev/null || { echo "$n: patch does not apply"; continue; }
   res=""
